@@ -13,8 +13,16 @@ from ..core import Ctx
 
 PID = "C15"
 
-SHAPES_QUICK = [(1, 2, None), (2, 2, None), (2, 2, 1), (2, 2, 2), (3, 2, None), (3, 2, 3)]
-SHAPES_THOROUGH = SHAPES_QUICK + [(2, 3, 1), (2, 3, 2), (3, 2, 2), (3, 3, 3), (3, 2, 1), (3, 3, 2)]
+# (nesting depth, map fan-out, mapped level[, flags]); flags: "sync" = the last leaf of every level is a synchronous
+# function, "pool" = the top-level call is runner.map(graph, ..., max_concurrency=k) over the items
+SHAPES_QUICK = [(1, 2, None), (2, 2, None), (2, 2, 1), (2, 2, 2), (3, 2, None), (3, 2, 3),
+                (1, 2, None, "sync"), (2, 2, 1, "sync"), (1, 3, 1, "pool"), (2, 2, 1, "pool"), (1, 2, 1, "pool+sync")]
+SHAPES_THOROUGH = SHAPES_QUICK + [(2, 3, 1), (2, 3, 2), (3, 2, 2), (3, 3, 3), (3, 2, 1), (3, 3, 2),
+                                  (2, 2, None, "sync"), (3, 2, 3, "sync"), (2, 3, 1, "pool"), (2, 3, 1, "pool+sync")]
+
+
+def flags_of(shape):
+    return set(shape[3].split("+")) if len(shape) > 3 else set()
 
 
 def mc(plan, cfg, timeout=600, workers=4):
@@ -42,8 +50,10 @@ def run(tier, seed):
     thorough = tier == "thorough"
     shapes = SHAPES_THOROUGH if thorough else SHAPES_QUICK
     jobs = []
-    for i, (depth, fan, map_at) in enumerate(shapes):
-        prog, prov, lists = gen.conc_template(depth, fan, map_at=map_at)
+    for i, shape in enumerate(shapes):
+        depth, fan, map_at = shape[:3]
+        fl = flags_of(shape)
+        prog, prov, lists = gen.conc_template(depth, fan, map_at=map_at, sync_last="sync" in fl, pool="pool" in fl)
         jobs.append(gen.job(i + 1, prog, prov, mode="async", lists=lists))
     res, stats = predict.model_predict(jobs)
     ctx.add_tlc(stats)
@@ -51,7 +61,7 @@ def run(tier, seed):
     work = []
     for j, shape in zip(jobs, shapes):
         for k in (1, 2, 3):
-            work.append((j, shape, k, plans.build_plan(len(work) + 1, j, res[j["id"]], k)))
+            work.append((j, shape, k, plans.build_plan(len(work) + 1, j, res[j["id"]], k, root_pool="pool" in flags_of(shape))))
 
     def check_one(item):
         j, shape, k, plan = item
@@ -80,14 +90,19 @@ def run(tier, seed):
         raise RuntimeError(f"vacuity guard: permit_at_graphnode not caught: {b1.violation}")
     if not (b2.violation and b2.violation[1] == "Bounded"):
         raise RuntimeError(f"vacuity guard: no_permit not caught: {b2.violation}")
-    ctx.bump("spec_mutants_caught", 2)
+    j, shape, k, plan = [w for w in work if w[1] == (1, 2, None, "sync") and w[2] == 1][0]
+    b3 = mc(plan, "HGSched_bug_sync_no_permit.cfg")
+    if not (b3.violation and "SyncFits" in str(b3.violation)):
+        raise RuntimeError(f"vacuity guard: sync_no_permit not caught: {b3.violation} {b3.out[-600:]}")
+    ctx.bump("spec_mutants_caught", 3)
     # ---- replay: adversarial driver on the real AsyncRunner
-    enum_plans = [plan for (j, shape, k, plan) in work if len(plan["tasks"]) <= 11 and not any(t["kind"] == "map" for t in plan["tasks"])]
+    enum_plans = [plan for (j, shape, k, plan) in work if len(plan["tasks"]) <= 11 and not any(t["kind"] in ("map", "pool") for t in plan["tasks"])]
     scheds, st2 = sched.enumerate_schedules(enum_plans) if enum_plans else ({}, {"states": 0, "transitions": 0, "violations": []})
     ctx.add_tlc(st2)
     n_runs = 0
     for (j, shape, k, plan) in work:
-        base, _ = sched.run_schedule(j, [], 0)          # unlimited run, default release order
+        is_pool = "pool" in flags_of(shape)
+        base, _ = run_with(j, [], None, 0, pool=is_pool)          # unlimited run, default release order
         if base["status"] != "completed":
             raise RuntimeError(f"baseline run failed: {base}")
         cases = [(name, None, pick) for name, pick in policies(rng, 6 if thorough else 2)]
@@ -99,7 +114,7 @@ def run(tier, seed):
             n_runs += 1
             ctx.count()
             ctx.traces()
-            rt_obs, ctl = run_with(j, order, pick, k)
+            rt_obs, ctl = run_with(j, order, pick, k, pool=is_pool)
             wit = {"job": j, "shape": shape, "k": k, "policy": name, "schedule": order, "max_inflight": ctl.max_inflight,
                    "released": ctl.released[:40], "status": rt_obs["status"]}
             if rt_obs["status"] == "deadlock":
@@ -114,10 +129,53 @@ def run(tier, seed):
             if ctl.max_inflight < min(k, widest(plan)):
                 ctx.divergence("the framework kept fewer bodies in flight than the limit allows", {"shape": shape, "k": k, "max": ctl.max_inflight})
     ctx.bump("adversarial_runs", n_runs)
+    # ---- call level: TLC-generated histories of top-level calls sharing one context (spec/Limiter.tla)
+    from .. import limiter
+    caught = limiter.spec_mutants()
+    for bug, v in caught.items():
+        if not v:
+            raise RuntimeError(f"vacuity guard: Limiter.tla does not reject the wrong protocol {bug}")
+    ctx.bump("spec_mutants_caught", len(caught))
+    hs2, r2 = limiter.histories("Limiter.cfg")
+    ctx.add_tlc(result=r2)
+    hs = list(hs2)
+    hs3, r3 = limiter.histories("Limiter3.cfg")
+    ctx.add_tlc(result=r3)
+    hs += rng.sample(hs3, min(len(hs3), 1500 if thorough else 150))
+    if not thorough:
+        hs = rng.sample(hs2, 200) + hs[len(hs2):]
+    kinds_seen = set()
+    for h in hs:
+        name, pick = rng.choice([("oldest", lambda keys: keys[0]), ("newest", lambda keys: keys[-1])])
+        obs, ctl = limiter.replay(h, pick)
+        ctx.count()
+        ctx.traces()
+        ctx.distinct("hist/" + "/".join(f"{c['kind']}:{c['k']}" for c in h))
+        wit = {"history": h, "policy": name, "observed": obs}
+        if obs is None:
+            ctx.violation("deadlock", wit, f"a call of the history {[(c['kind'], c['k']) for c in h]} did not terminate")
+            continue
+        for i, o in enumerate(obs):
+            kinds_seen.add(o["kind"])
+            if o["outcome"] != limiter.EXPECTED_OUTCOME[o["kind"]]:
+                raise RuntimeError(f"harness: call {o['kind']} ended as {o['outcome']}")
+            if o["limit"] and o["max_inflight"] > o["limit"]:
+                ctx.violation("bound-exceeded-after-history", wit,
+                              f"call {i + 1} ({o['kind']}, max_concurrency={o['k']}) had {o['max_inflight']} bodies executing after {[(c['kind'], c['k']) for c in h[:i]]}")
+                break
+            want = min(o["limit"] or 99, limiter.WIDEST[o["kind"]])
+            if o["max_inflight"] < want:
+                ctx.divergence("a call was throttled below its own limit", {"history": h, "call": i + 1, "max_inflight": o["max_inflight"], "expected": want})
+            if o["limiter_after"] is not None:
+                ctx.divergence("a limiter stayed installed after a top-level call returned", {"history": h, "call": i + 1})
+    ctx.bump("call_histories_replayed", len(hs))
+    if kinds_seen != set(limiter.EXPECTED_OUTCOME):
+        raise RuntimeError(f"call kinds never replayed: {set(limiter.EXPECTED_OUTCOME) - kinds_seen}")
     ctx.sample({"shape(depth,fan,map_at)": shapes[-1], "k": 2, "tasks": len(work[-1][3]["tasks"]), "frames": len(work[-1][3]["frames"])})
     ctx.assumptions += ["HGSched.tla: permits are taken by leaf function nodes only, FIFO; graph and map nodes start child runs without a permit; all interleavings of Begin/Acquire/Complete/StepDone explored by TLC per plan and k",
-                        "the driver counts a body as executing from the moment the framework calls it until the driver releases it; sync gate functions run atomically and are not counted"]
-    return ctx.finish(rule=f"shapes (nesting depth, map fan-out, mapped level) {shapes} x k in 1..3: exhaustive TLC model checking of HGSched (in-flight bound, permit accounting, all tasks ran, deadlock freedom; liveness on plans <= 12 tasks), two wrong designs must be caught; replay: adversarial driver holding every started body, release policies oldest/newest/random + TLC-enumerated completion orders; distinct = (shape, k)")
+                        "the driver counts a body as executing from the moment the framework calls it until the driver releases it; a synchronous function body counts at the instant it executes (HGSched SyncFits); sync gate functions run atomically and are not counted",
+                        "Limiter.tla: top-level calls made one after the other from one task share the ContextVar; every executing call is bounded by its own max_concurrency (OwnLimit) and leaves no limiter behind (Clean); histories of 2 calls exhaustively, of 3 calls sampled, over 8 call kinds x k in {None,1,3}"]
+    return ctx.finish(rule=f"shapes (nesting depth, map fan-out, mapped level) {shapes} x k in 1..3: exhaustive TLC model checking of HGSched (in-flight bound, permit accounting, all tasks ran, deadlock freedom; liveness on plans <= 12 tasks), two wrong designs must be caught; replay: adversarial driver holding every started body, release policies oldest/newest/random + TLC-enumerated completion orders; shapes with synchronous leaves and top-level runner.map worker pools; Limiter.tla call histories replayed in one context; distinct = (shape, k) and call histories")
 
 
 def widest(plan):
@@ -128,21 +186,34 @@ def widest(plan):
     return max(best.values()) if best else 0
 
 
-def run_with(job, order, pick, k):
+def run_with(job, order, pick, k, pool=False):
     import warnings
     from hypergraph import AsyncRunner
     from .. import drive
     rt = build.Runtime(job["prog"])
+    kw = {"max_concurrency": k} if k else {}
     with warnings.catch_warnings():
         warnings.simplefilter("ignore")
-        g = build.build_graph(rt, job["prog"])
         runner = AsyncRunner()
-        res, ctl = drive.run_controlled(lambda: runner.run(g, build.provided_dict(job), max_concurrency=k, error_handling="continue"),
-                                        rt, schedule=order, pick=pick)
+        if pool:
+            # the program's only top-level node is the mapped graph: call runner.map on that graph itself
+            gn = job["prog"]["nodes"][0]
+            g = build.build_graph(rt, gn["sub"], prefix=gn["name"])
+            items = build.provided_dict(job)[gn["map_over"][0]]
+            inner = dict(gn["inmap"])[gn["map_over"][0]]
+            res, ctl = drive.run_controlled(lambda: runner.map(g, {inner: list(items)}, map_over=inner, error_handling="continue", **kw),
+                                            rt, schedule=order, pick=pick)
+        else:
+            g = build.build_graph(rt, job["prog"])
+            res, ctl = drive.run_controlled(lambda: runner.run(g, build.provided_dict(job), error_handling="continue", **kw),
+                                            rt, schedule=order, pick=pick)
     if ctl.deadlock:
         return {"status": "deadlock", "values": {}}, ctl
     if isinstance(res, BaseException):
-        return {"status": "raised:" + type(res).__name__, "values": {}}, ctl
+        return {"status": "raised:" + type(res).__name__ + ":" + str(res)[:200], "values": {}}, ctl
+    if pool:
+        sts = sorted({r.status.value for r in res})
+        return {"status": sts[0] if len(sts) == 1 else "mixed:" + ",".join(sts), "values": {str(i): build.values_of(r) for i, r in enumerate(res)}}, ctl
     return build.observe(rt, res), ctl
 
 
